@@ -576,7 +576,8 @@ class Parser:
             return "\t", index
         if ch == "u":
             codepoint, index = self._decode_hex_char(value, index, token)
-            return self._string_from_codepoint(codepoint, token), index
+            # Only unescaped control characters are invalid; \u0000-\u001f is fine.
+            return chr(codepoint), index
 
         raise JSONPathSyntaxError(
             f"unknown escape sequence at index {token.index + index - 1}",
